@@ -220,6 +220,10 @@ func c01Run(c *core.Ctx, i int) {
 		runTextFamily(c, "unary-on-stored-values", unaryOnCallSource(r), nil)
 		return
 	}
+	if i%40 == 34 { // equality is by value, also between a composite and itself
+		runTextFamily(c, "self-equality", selfEqualitySource(r), nil)
+		return
+	}
 	if i%40 == 39 { // deep equality of any values with different dynamic types
 		c.Cover("family", "any-equality")
 		runGenProgram(c, anyEqProgram(r), nil, true, false)
